@@ -27,7 +27,7 @@ WORLD_INFO = {'real': ['Cluster, Session, ControlConnection, ResponseFuture (_on
               'stub': ['libev C binding', 'sockets/TCP', 'ThreadPoolExecutor (SimExecutor)', 'fake Cassandra node (independent codec)']}
 ASSUMPTIONS = ['orphaned_threshold is set high: connection replacement is C13']
 REQUIRED_PROBES = ['late_response_after_timeout', 'client_timeout', 'id_space_grew', 'dropped_request', 'same_host_retry',
-                   'retried_request_timed_out', 'send_refused_busy', 'ctl_wait_timed_out_polls', 'ctl_connection_survived']
+                   'retried_request_timed_out', 'send_refused_busy', 'ctl_wait_timed_out_polls', 'ctl_connection_survived', 'one_byte_stream_ids']
 
 
 def prepare():
@@ -43,7 +43,26 @@ def gen_plan(rng, tier):
         return gen_plan_busy(rng)
     if k < 0.4:
         return gen_plan_ctl(rng)
+    if k < 0.47:
+        return gen_plan_legacy(rng)
     return gen_plan_pool(rng)
+
+
+def gen_plan_legacy(rng):
+    """Protocol 1/2: one-byte stream ids, at most 128 of them (0..127) however large max_in_flight is; one connection per host."""
+    p = gen_plan_pool(rng, mif=rng.choice([200, 310]))
+    p['mode'] = 'legacy'
+    p['version'] = rng.choice([1, 2])
+    for nd in p['cluster']['nodes']:
+        nd['release'] = '2.1.15'
+        nd['versions'] = [1, 2, 3]
+    p['pool_v2'] = {'core': 1, 'max': 1, 'max_req': 127, 'min_req': 0}
+    n = rng.choice([20, 135, 150])
+    nthreads = p['nthreads']
+    p['requests'] = [{'thread': rng.randrange(nthreads), 'timeout': rng.choice([2.0, 4.0]),
+                      'script': {'kind': 'ok', 'delay': rng.choice([0.2, 0.6, 1.0])}, 'think': 0} for _ in range(n)]
+    p['fault'] = None
+    return p
 
 
 ERRS = ['read_timeout', 'write_timeout', 'unavailable', 'overloaded', 'server_error']
@@ -256,13 +275,24 @@ def run_plan(plan, seed, choices=None):
         try:
             cluster = w.make_cluster(protocol_version=plan['version'], idle_heartbeat_interval=0,
                                      profile=({'retry': AlwaysRetry()} if mode == 'retry' else None))
+            if plan.get('pool_v2'):
+                L = w.cpol.HostDistance.LOCAL
+                cluster.set_min_requests_per_connection(L, plan['pool_v2']['min_req'])
+                cluster.set_max_requests_per_connection(L, plan['pool_v2']['max_req'])
+                cluster.set_max_connections_per_host(L, plan['pool_v2']['max'])
+                cluster.set_core_connections_per_host(L, plan['pool_v2']['core'])
+                sim.probe('one_byte_stream_ids')
             session = cluster.connect(wait_for_all_pools=True)
         except Exception as e:
             st['connect_error'] = repr(e)
             return
         w.session = session
         pools = list(session._pools.values())
-        st['conn'] = pools[0]._connection if pools else None
+        if pools and hasattr(pools[0], '_connection'):
+            st['conn'] = pools[0]._connection
+        else:
+            cs = list(getattr(pools[0], '_connections', [])) if pools else []        # HostConnectionPool (protocol 1/2)
+            st['conn'] = cs[0] if cs else None
         if plan['fault']:
             sim.at(plan['fault']['at'], lambda: w.fc.rst_conns(0, 'pool'), 'fault rst pool conns')
         if mode == 'busy':
@@ -312,7 +342,7 @@ def run_plan(plan, seed, choices=None):
     w.settle(3.0)
     w.drain()
     node = w.fc.nodes[0]
-    max_id = min(plan['knobs']['max_in_flight'] - 1, 2 ** 15 - 1)
+    max_id = min(plan['knobs']['max_in_flight'] - 1, 2 ** 15 - 1) if plan['version'] >= 3 else min(plan['knobs']['max_in_flight'], 127)
     # ---- oracle
     for e in node.log:
         if 'rid' in e and e.get('kind'):
